@@ -150,7 +150,18 @@ def bounds_turnout(h):
         return h.fail("no_raise", f"raised {res}")
     lo, hi = res
     rows = z3.And(*fr.axis.facts())
-    h.ensures("turnout_bounds_non_negative", z3.Implies(rows, z3.And(lo.t >= 0, hi.t >= 0)))
+    def rp(ev):
+        # the generic outstanding unit of the counter-model as a one-row frame of the REAL function
+        def fl(t_, d):
+            v = ev(t_)
+            try:
+                return float(v) if v is not None else d
+            except Exception:  # noqa
+                return d
+
+        return {"target": "verif_replays:nonreporting_bounds", "args": ["turnout_factor", fl(pev, 55.0), fl(z, 1.0), fl(zlo.t, 0.5), fl(zhi.t, 1.5), fl(err.t, 0.6)], "check": "result['exc'] is None and result['lo'] >= 0 and result['hi'] >= 0 and result['lo'] == result['lo'] and result['hi'] == result['hi']"}
+
+    h.ensures("turnout_bounds_non_negative", z3.Implies(rows, z3.And(lo.t >= 0, hi.t >= 0)), replay=rp)
     h.ensures("turnout_bounds_finite", z3.Implies(rows, z3.And(z3.Not(lo.nf()) if lo.nf() is not None else True, z3.Not(hi.nf()) if hi.nf() is not None else True)))
 
 
